@@ -437,6 +437,8 @@ def call_expr(prog, nd, c, arg="x"):
         return "pk.%s(%s)" % (t["name"], arg)
     if c["form"] == "xattr":
         return "lib.%s(%s)" % (t["name"], arg)
+    if c["form"] == "palias":  # a module-level modifier clone that binds the argument: called without one
+        return "%s()" % c["alias"]
     if c["form"] == "alias":
         return "%s(%s)" % (c["alias"], arg)
     if c["form"] == "old":  # the earlier definition of the helper, through the name that still refers to it
@@ -651,6 +653,9 @@ def render_module(prog, mod, twin=False, order=None, skip=()):
         parts.append(render_def(prog, i, skip) + "\n")
     for al in prog["aliases"]:
         if al["mod"] == mod and prog["nodes"][al["target"]]["name"] not in skip:
+            if al.get("pclone") is not None:  # a module-level modifier clone of a memento function that binds its argument
+                parts.append("%s = %s.partial(%d)\n" % (al["name"], prog["nodes"][al["target"]]["name"], al["pclone"]))
+                continue
             if al.get("partial"):  # a module-level functools.partial object around the function (binds nothing)
                 parts.append("%s = functools.partial(%s)\n" % (al["name"], prog["nodes"][al["target"]]["name"]))
                 continue
@@ -712,8 +717,9 @@ def cell_statements(old, new, desc, twin=False):
     ridx = set(changed)
     for al in new["aliases"]:
         o = next((x for x in old["aliases"] if x["name"] == al["name"] and x["mod"] == al["mod"]), None)
-        if o is None or o["target"] != al["target"] or al["target"] in ridx:
-            out.append((al["mod"], "%s = %s\n" % (al["name"], new["nodes"][al["target"]]["name"]), al["name"]))
+        if o is None or o["target"] != al["target"] or al["target"] in ridx or o.get("pclone") != al.get("pclone"):
+            out.append((al["mod"], "%s = %s%s\n" % (al["name"], new["nodes"][al["target"]]["name"],
+                                                   ".partial(%d)" % al["pclone"] if al.get("pclone") is not None else ""), al["name"]))
     if desc.get("var") is not None:
         v = new["vars"][desc["var"]]
         if desc["kind"] == "var_mutate":
@@ -985,6 +991,13 @@ def apply_edit(rng, prog, kind=None, force_var=None, force_node=None):
             if nodes[i].get("lamdefault") is not None:
                 nodes[i]["lamdefault"] += rng.randint(1, 5)
                 return done(i)
+    if kind == "pclone_arg":  # (aimed use only) the argument bound by a module-level modifier clone
+        for al in p["aliases"]:
+            if al.get("pclone") is not None:
+                al["pclone"] += rng.randint(1, 5)
+                users = [i for i, nd in enumerate(nodes) if any(c.get("alias") == al["name"] for c in nd["calls"])]
+                desc["alias"] = al["name"]
+                return done(None, changed=[])
     if kind == "pswap":  # (aimed use only) the parameters x and y exchange their names
         for i in cand:
             if nodes[i]["kind"] in ("memento", "plain") and len(nodes[i]["params"]) > 1:
